@@ -102,6 +102,17 @@ void vm_generate(uint64_t seed, unsigned size_class)
 		VM.target[0] = base;
 		VM.total_target = base;
 	}
+	VM.sparse_lp = -1;
+	unsigned sp = gbelow(3);
+	if(getenv("VM_FORCE_SPARSE"))
+		sp = atoi(getenv("VM_FORCE_SPARSE")) ? 0 : 1;
+	if(VM.n_lps >= 3 && sp == 0) {
+		VM.sparse_lp = (int)gbelow(VM.n_lps);
+		VM.total_target -= VM.target[VM.sparse_lp];
+		VM.target[VM.sparse_lp] = 1 + gbelow(2);
+		VM.total_target += VM.target[VM.sparse_lp];
+		VM.sparse_div = VM.total_target / (3 * VM.n_lps) + 4; /* a handful of arrivals over the whole run */
+	}
 	/* engines may pin single parameters of the family (applies to the reference and the core run alike) */
 	const char *f = getenv("VM_FORCE_RNG");
 	if(f)
@@ -109,13 +120,28 @@ void vm_generate(uint64_t seed, unsigned size_class)
 	f = getenv("VM_FORCE_MEM");
 	if(f)
 		VM.mem_mode = atoi(f);
+	f = getenv("VM_FORCE_TS");
+	if(f)
+		VM.ts_mode = atoi(f);
+	f = getenv("VM_FORCE_DEST");
+	if(f)
+		VM.dest_mode = atoi(f);
+	f = getenv("VM_FORCE_LPS");
+	if(f && (unsigned)atoi(f) < VM.n_lps) { /* shrink the model: keep the per-LP targets, drop the other LPs */
+		VM.n_lps = (unsigned)atoi(f);
+		VM.total_target = 0;
+		for(unsigned i = 0; i < VM.n_lps; ++i)
+			VM.total_target += VM.target[i];
+		if(!VM.total_target)
+			VM.total_target = VM.target[0] = 400;
+	}
 }
 
 void vm_describe(char *buf, size_t n)
 {
-	snprintf(buf, n, "{\"model_seed\":%llu,\"lps\":%u,\"tokens\":%u,\"ts_mode\":%d,\"dest_mode\":%d,\"payload_mode\":%d,\"mem_mode\":%d,\"rng_mode\":%d,\"side_max\":%d,\"init_ts0\":%d,\"total_target\":%u,\"stop\":[%d,%u],\"term_time\":%g}",
+	snprintf(buf, n, "{\"model_seed\":%llu,\"lps\":%u,\"tokens\":%u,\"ts_mode\":%d,\"dest_mode\":%d,\"payload_mode\":%d,\"mem_mode\":%d,\"rng_mode\":%d,\"side_max\":%d,\"init_ts0\":%d,\"total_target\":%u,\"stop\":[%d,%u],\"term_time\":%g,\"sparse_lp\":%d}",
 	    (unsigned long long)VM.seed, VM.n_lps, VM.tokens, VM.ts_mode, VM.dest_mode, VM.payload_mode, VM.mem_mode, VM.rng_mode, VM.side_max,
-	    VM.init_ts0, VM.total_target, VM.stop_lp, VM.stop_at, VM.term_time);
+	    VM.init_ts0, VM.total_target, VM.stop_lp, VM.stop_at, VM.term_time, VM.sparse_lp);
 }
 
 /* ---------------- handler ---------------- */
@@ -235,7 +261,7 @@ static bool before_current(double ts, unsigned type, const void *pl, unsigned si
 	return msg_is_before(&a.m, &b.m);
 }
 
-static unsigned pick_dest(lp_id_t me, uint64_t h)
+static unsigned pick_dest_raw(lp_id_t me, uint64_t h)
 {
 	unsigned n = VM.n_lps;
 	switch(VM.dest_mode) {
@@ -244,6 +270,14 @@ static unsigned pick_dest(lp_id_t me, uint64_t h)
 		case 2: return (unsigned)((h >> 8) % n);
 		default: return (h % 3) ? 0 : (unsigned)((h >> 8) % n);
 	}
+}
+static unsigned pick_dest(lp_id_t me, uint64_t h)
+{
+	unsigned d = pick_dest_raw(me, h);
+	/* the sparse LP is by-passed most of the time (also by itself: it hands its tokens on) */
+	if(VM.sparse_lp >= 0 && d == (unsigned)VM.sparse_lp && (h >> 44) % VM.sparse_div != 0)
+		d = (d + 1 + (unsigned)((h >> 36) % (VM.n_lps - 1))) % VM.n_lps;
+	return d;
 }
 
 static double pick_delay(uint64_t h, bool allow_zero)
@@ -323,7 +357,7 @@ void vm_process(lp_id_t me, simtime_t now, unsigned type, const void *pl, unsign
 			unsigned char buf[VM_MAXPL];
 			unsigned psz = pick_payload(h >> 28, buf);
 			double ts = VM.init_ts0 ? 0.0 : pick_delay(h >> 20, true) + (VM.ts_mode == 1 ? 0.0 : (double)(h % 2));
-			unsigned dst = t == 0 ? (unsigned)me : pick_dest(me, h);
+			unsigned dst = (t == 0 && (int)me != VM.sparse_lp) ? (unsigned)me : pick_dest(me, h);
 			unsigned ty = before_current(1.0, TOKEN_BASE + TOKEN_HOPS, NULL, 0, 1.0, TOKEN_BASE, NULL, 0) ? TOKEN_BASE + TOKEN_HOPS : TOKEN_BASE;
 			while(before_current(ts, ty, buf, psz, 0.0, LP_INIT, NULL, 0))
 				ts += 0.25;
